@@ -16,6 +16,51 @@ func init() {
 	verifHarnesses["VerifC07_GeneratedPubSub"] = VerifC07_GeneratedPubSub
 	verifHarnesses["VerifC16_GeneratedWiring"] = VerifC16_GeneratedWiring
 	verifHarnesses["VerifC16_GeneratedSubscribers"] = VerifC16_GeneratedSubscribers
+	verifHarnesses["VerifC16_GeneratedArgs"] = VerifC16_GeneratedArgs
+}
+
+// C16 "each seeing the arguments the caller passed ... a change a middleware makes to
+// arguments is exactly what the other side observes", on a generated method whose
+// argument ids are not in declaration order: client-side and server-side middleware
+// see (context, to, sender) in the handler's parameter order, and a rewrite of one
+// position changes exactly that parameter.
+func VerifC16_GeneratedArgs() {
+	type seen struct{ to, sender string }
+	var client, server []seen
+	observe := func(into *[]seen, rewrite int, suffix string) frugal.ServiceMiddleware {
+		return func(next frugal.InvocationHandler) frugal.InvocationHandler {
+			return func(service reflect.Value, method reflect.Method, args frugal.Arguments) frugal.Results {
+				*into = append(*into, seen{args[1].(string), args[2].(string)})
+				if rewrite > 0 {
+					args[rewrite] = args[rewrite].(string) + suffix
+				}
+				return next(service, method, args)
+			}
+		}
+	}
+	h := &verifHandler{}
+	pf := frugal.NewFProtocolFactory(thrift.NewTBinaryProtocolFactoryDefault())
+	rc, rs := verifChoice(3), verifChoice(3) // which position the client / server middleware rewrites (0 = none)
+	loop := &verifLoop{proc: NewFBasicProcessor(h, observe(&server, rs, "S")), pf: pf}
+	cl := NewFBasicClient(frugal.NewFServiceProvider(loop, pf), observe(&client, rc, "C"))
+	to, sender := verifStr(verifChoice(2)), verifStr(verifChoice(2))
+	got, err := cl.Route(frugal.NewFContext("c"), to, sender)
+	wantTo, wantSender := to, sender
+	verifAssert(len(client) == 1 && client[0].to == to && client[0].sender == sender, "client middleware sees the caller's arguments in their positions")
+	if rc == 1 {
+		wantTo += "C"
+	} else if rc == 2 {
+		wantSender += "C"
+	}
+	verifAssert(len(server) == 1 && server[0].to == wantTo && server[0].sender == wantSender, "server middleware sees what the client side sent, in the handler's parameter positions")
+	if rs == 1 {
+		wantTo += "S"
+	} else if rs == 2 {
+		wantSender += "S"
+	}
+	verifAssert(h.calls == 1 && h.s == wantTo && h.id == wantSender, "the handler observes exactly the rewritten arguments, each in its own parameter")
+	verifAssert(err == nil && got == wantTo+"<-"+wantSender, "and the caller the handler's result")
+	verifReach("end")
 }
 
 // verifBus connects generated publishers to generated subscribers: a publish on
